@@ -8,7 +8,7 @@ print('| id | change | needs | first round | detected now by (quick tier) |')
 print('|---|---|---|---|---|')
 for k in sorted(idx):
     mp = os.path.join(ROOT, 'seeded', k, 'meta.json')
-    det = '(not taken in)'
+    det = '(retired: seeded/_retired)' if os.path.isdir(os.path.join(ROOT, 'seeded', '_retired', k)) else '(not taken in)'
     if os.path.exists(mp):
         m = json.load(open(mp))
         ok = all(m['confirmed'].values())
